@@ -9,7 +9,7 @@ def main():
     hook_commits = ['5bddae4 verif hook: deterministic frame mask under --cfg tungstenite_verif']
     checks = []
     for pid in ALL:
-        if pid not in REGISTRY:
+        if pid not in REGISTRY or not os.path.exists(os.path.join(build.COQ, 'props', pid + '.v')):
             continue
         p = REGISTRY[pid]
         checks.append({
@@ -24,7 +24,7 @@ def main():
             'technique': p.technique,
         })
     na = [{'property_id': pid, 'reason': 'not yet claimed: model/theorems for this property are not finished in this revision (see DESIGN.md §11 status)'}
-          for pid in ALL if pid not in REGISTRY]
+          for pid in ALL if pid not in [c['property_id'] for c in checks]]
     m = {
         'version': 1,
         'setup_cmd': './check setup',
